@@ -25,7 +25,7 @@ def build_pool(rng, tier):
     pool = []
     n = 1 if tier == "quick" else 3
     for _ in range(n):
-        for a in ["greedy", "roundrobin", "multifit", "kk", "cg", "ckk", "snp", "rnp", "dp", "ilp", "cbldm"]:
+        for a in ["greedy", "roundrobin", "bidir", "multifit", "kk", "cg", "ckk", "snp", "rnp", "dp", "ilp", "cbldm"]:
             for fmt in rng.sample(gen.FORMATS, 3):
                 vals, fam = gen.values(rng, nmax=7, vmax=2 ** 40)
                 k = rng.choice([2, 2, 3, 4])
